@@ -14,6 +14,7 @@ subprocess.run(["git", "-C", LIB, "worktree", "remove", "--force", MUT], capture
 subprocess.run(["git", "-C", LIB, "worktree", "add", "-f", MUT, "HEAD"], capture_output=True, check=True)
 EH=f"{MUT}/async_upnp_client/event_handler.py"
 CL=f"{MUT}/async_upnp_client/client.py"
+AIO=f"{MUT}/async_upnp_client/aiohttp.py"
 UT=f"{MUT}/async_upnp_client/utils.py"
 def rep(path, old, new, count=1):
     s=open(path).read()
@@ -155,6 +156,10 @@ MUTS={
                     merged.pop(name, None)
                     merged[name] = value
             service.notify_changed_state_variables(merged)"""))),
+ "C09-M7-eager-HTTPStatus-phrase": ("C09", lambda: rep(EH, '_LOGGER.debug("Did not receive 200, but %s", response_status)', '_LOGGER.debug("Did not receive 200, but %s", HTTPStatus(response_status).phrase)', 3)),
+ "C11-M5-notify-server-412-for-unknown-sid": ("C11", lambda: rep(AIO, """        status = await self.event_handler.handle_notify(headers, body)""", """        if self.event_handler.service_for_sid(headers.get("SID", "")) is None:
+            return aiohttp.web.Response(status=412)
+        status = await self.event_handler.handle_notify(headers, body)""")),
  "C11-M1-replay-newest-only": ("C11", lambda: rep(EH, "for item in self._backlog[sid]:", "for item in self._backlog[sid][-1:]:")),
  "C11-M2-delete-before-replay": ("C11", lambda: rep(EH, """            for item in self._backlog[sid]:
                 await self.handle_notify(item[0], item[1])
